@@ -4,6 +4,7 @@ import (
 	"fmt"
 	"go/token"
 	"go/types"
+	"strings"
 
 	"golang.org/x/tools/go/ssa"
 
@@ -28,6 +29,23 @@ func init() {
 			{Name: "role byte inside counter bytes", ExpectRule: "C02.R3", Edits: []Edit{
 				{File: "internal/crypto/crypto.go", Old: "\t\t// Responder sends with high bit set\n\t\tnonce[0] = 0x80\n", New: "\t\tnonce[4] = 0x80\n"},
 			}},
+			{Name: "separate atomic load and add", ExpectRule: "C02.R1", Edits: []Edit{
+				{File: "internal/crypto/crypto.go", Old: "\t\"io\"\n\t\"sync\"\n", New: "\t\"io\"\n\t\"sync\"\n\t\"sync/atomic\"\n"},
+				{File: "internal/crypto/crypto.go", Old: "\ts.mu.Lock()\n\tnonce := s.buildSendNonce()\n\ts.sendNonce++\n\ts.mu.Unlock()\n", New: "\tnonce := s.buildSendNonce()\n\tatomic.AddUint64(&s.sendNonce, 1)\n"},
+				{File: "internal/crypto/crypto.go", Old: "binary.BigEndian.PutUint64(nonce[4:], s.sendNonce)", New: "binary.BigEndian.PutUint64(nonce[4:], atomic.LoadUint64(&s.sendNonce))"},
+			}},
+			{Name: "rewrite: single atomic read-modify-write feeds the nonce", Edits: []Edit{
+				{File: "internal/crypto/crypto.go", Old: "\t\"io\"\n\t\"sync\"\n", New: "\t\"io\"\n\t\"sync\"\n\t\"sync/atomic\"\n"},
+				{File: "internal/crypto/crypto.go", Old: "\ts.mu.Lock()\n\tnonce := s.buildSendNonce()\n\ts.sendNonce++\n\ts.mu.Unlock()\n", New: "\tnonce := s.buildSendNonce()\n"},
+				{File: "internal/crypto/crypto.go", Old: "binary.BigEndian.PutUint64(nonce[4:], s.sendNonce)", New: "binary.BigEndian.PutUint64(nonce[4:], atomic.AddUint64(&s.sendNonce, 1)-1)"},
+			}},
+			{Name: "stored private key not consumed (local copy zeroed)", ExpectRule: "C02.R6", Edits: []Edit{
+				{File: "internal/agent/udp.go", Old: "\t\tsharedSecret, err := crypto.ComputeECDH(dest.EphemeralPrivKey, ack.EphemeralPubKey)", New: "\t\tephPriv := dest.EphemeralPrivKey\n\t\tsharedSecret, err := crypto.ComputeECDH(ephPriv, ack.EphemeralPubKey)"},
+				{File: "internal/agent/udp.go", Old: "\t\tcrypto.ZeroKey(&dest.EphemeralPrivKey)\n\n\t\t// Derive session key", New: "\t\tcrypto.ZeroKey(&ephPriv)\n\n\t\t// Derive session key"},
+			}},
+			{Name: "pointer-passed private key not zeroed", ExpectRule: "C02.R6", Edits: []Edit{
+				{File: "internal/agent/icmp.go", Old: "\t// Zero out private key immediately\n\tcrypto.ZeroKey(ephPrivKey)\n", New: ""},
+			}},
 			{Name: "rewrite: deferred unlock, seal under the lock", Edits: []Edit{
 				{File: "internal/crypto/crypto.go", Old: "\tnonce := s.buildSendNonce()\n\ts.sendNonce++\n\ts.mu.Unlock()\n", New: "\tdefer s.mu.Unlock()\n\tnonce := s.buildSendNonce()\n\ts.sendNonce++\n"},
 			}},
@@ -39,6 +57,7 @@ func runC02(p *kit.Program, r *kit.Report) {
 	r.Rule("C02.R1", "the send-counter read feeding the nonce and the counter increment are in one mutex region; the increment is +k (k>=1); no other store to the counter exists in the repository")
 	r.Rule("C02.R2", "the nonce buffer handed to AEAD.Seal is written only inside that region")
 	r.Rule("C02.R3", "the role byte lies outside the counter bytes, is non-zero for exactly one role, and the send and receive nonce builders use opposite role polarity for the same byte")
+	r.Rule("C02.R6", "a long-lived (stored) ephemeral private key is consumed by the key agreement: where ComputeECDH takes its private key from a struct field or through a pointer parameter, that same location is zeroed before the session key is derived, so a duplicated handshake message cannot re-derive the same key with fresh (zero) nonce counters")
 	r.Rule("C02.R5", "the key field is accessed only by SessionKey methods and the key-derivation constructor; the AEAD is constructed from it only in the sealing/opening methods; the key getter has no caller in non-test code")
 	cx := newCryptoCtx(p, r)
 	if cx == nil {
@@ -85,6 +104,18 @@ func runC02(p *kit.Program, r *kit.Report) {
 		}
 	})
 	r.Count("nonce_buffer_writers", len(writers))
+	// the SessionKey method (if any) whose result is stored into the nonce buffer
+	var builder *ssa.Function
+	for _, w := range writers {
+		if w.from == nil {
+			continue
+		}
+		if c, _, ok := kit.ResultOf(w.from); ok {
+			if cal := kit.CalleeOf(c); cal.Static != nil && cx.isSKMethod(cal.Static) {
+				builder = cal.Static
+			}
+		}
+	}
 
 	// the counter field: uint64 SessionKey field read on the way to the nonce
 	var counter *types.Var
@@ -115,6 +146,23 @@ func runC02(p *kit.Program, r *kit.Report) {
 			}
 		}
 	}
+	if counter == nil {
+		// lock-free form: a uint64 field advanced through sync/atomic (or stored) on the send path
+		for _, f := range []*ssa.Function{fn, builder} {
+			if f == nil {
+				continue
+			}
+			for fld := range cx.fields {
+				if b, ok := fld.Type().(*types.Basic); ok && b.Kind() == types.Uint64 && cx.methodReads(f, fld) && !cx.methodReads(cx.decrypt, fld) {
+					counter = fld
+					for _, c := range kit.Calls(fn) {
+						counterRead = c
+						break
+					}
+				}
+			}
+		}
+	}
 	if !r.Require(counter != nil, "anchor-unresolved: no uint64 SessionKey field feeds the nonce handed to Seal") {
 		return
 	}
@@ -128,7 +176,76 @@ func runC02(p *kit.Program, r *kit.Report) {
 			}
 		}
 	})
-	if len(incs) == 0 {
+	// sync/atomic operations on the counter along the send path (sealing method + nonce builder)
+	type atomicOp struct {
+		call ssa.CallInstruction
+		name string
+		fn   *ssa.Function
+	}
+	var atomics []atomicOp
+	sendPath := []*ssa.Function{fn}
+	if builder != nil {
+		sendPath = append(sendPath, builder)
+	}
+	plainLoads := 0
+	for _, f := range sendPath {
+		for _, c := range kit.Calls(f) {
+			if cal := kit.CalleeOf(c); cal.Pkg == "sync/atomic" && len(c.Common().Args) > 0 {
+				if fa, ok := c.Common().Args[0].(*ssa.FieldAddr); ok && kit.FieldOfAddr(fa) == counter {
+					atomics = append(atomics, atomicOp{c, cal.Name, f})
+				}
+			}
+		}
+		kit.Instrs(f, func(in ssa.Instruction) {
+			if v, ok := in.(ssa.Value); ok {
+				if lf, _ := kit.LoadedField(v); lf == counter {
+					plainLoads++
+				}
+			}
+		})
+	}
+	atomicMode := len(atomics) > 0
+	if atomicMode {
+		// accepted lock-free idiom: the counter value placed in the nonce is the result of ONE
+		// atomic read-modify-write (Add); no separate load (atomic or plain) and no plain store.
+		adds, others := 0, 0
+		for _, a := range atomics {
+			if strings.HasPrefix(a.name, "Add") {
+				adds++
+			} else {
+				others++
+			}
+		}
+		ok := adds == 1 && others == 0 && plainLoads == 0 && len(incs) == 0
+		if ok {
+			// the nonce bytes must derive from that read-modify-write's result
+			fromAdd := false
+			for _, src := range kit.Slice(nonceArg, kit.SliceOpts{Prog: p, FollowParams: true, FollowCall: func(c ssa.CallInstruction) bool {
+				cal := kit.CalleeOf(c)
+				return cal.Static != nil && cx.isSKMethod(cal.Static)
+			}}) {
+				if src.Kind == kit.SrcCall && src.Call == atomics[0].call {
+					fromAdd = true
+				}
+			}
+			for _, a := range atomics {
+				if strings.HasPrefix(a.name, "Add") {
+					for _, src := range kit.Slice(nonceArg, kit.SliceOpts{Prog: p, FollowParams: true, FollowCall: func(c ssa.CallInstruction) bool {
+						cal := kit.CalleeOf(c)
+						return cal.Static != nil && cx.isSKMethod(cal.Static)
+					}}) {
+						if src.Kind == kit.SrcCall && src.Call == a.call {
+							fromAdd = true
+						}
+					}
+				}
+			}
+			ok = fromAdd
+		}
+		r.Decide(ok, "C02.R1", fname+" lock-free counter", p.Pos(atomics[0].call.Pos()),
+			"the nonce counter is obtained by a single atomic read-modify-write",
+			fmt.Sprintf("the send counter is read and advanced in separate steps (%d atomic Add, %d other atomic ops, %d plain loads, %d plain stores) without a common critical section: two concurrent senders can seal with the same nonce", adds, others, plainLoads, len(incs)))
+	} else if len(incs) == 0 {
 		r.Violation("C02.R1", fname+" counter increment", p.Pos(fn.Pos()), "the sealing method never advances %s: every message is sealed with the same nonce", counter.Name())
 	}
 	for i, st := range incs {
@@ -153,6 +270,17 @@ func runC02(p *kit.Program, r *kit.Report) {
 		if acc.Fn == fn {
 			continue
 		}
+		if atomicMode && acc.Kind == kit.FieldAddrUse {
+			onPath := false
+			for _, f := range sendPath {
+				if acc.Fn == f {
+					onPath = true
+				}
+			}
+			if onPath {
+				continue // judged by the lock-free obligation above
+			}
+		}
 		// zero-initialisation in a constructor literal is fine
 		if acc.Kind == kit.FieldStore {
 			if k, ok := kit.ConstInt(acc.Val); ok && k == 0 {
@@ -167,6 +295,9 @@ func runC02(p *kit.Program, r *kit.Report) {
 
 	// R2: every writer of the nonce buffer is inside the region
 	for i, w := range writers {
+		if atomicMode {
+			break // the nonce buffer is a local filled from the single atomic RMW; R1 judged it
+		}
 		_, held := li.HeldAt(w.in, cx.mu)
 		r.Decide(held, "C02.R2", fmt.Sprintf("%s nonce buffer writer #%d", fname, i+1), p.Pos(w.in.Pos()),
 			"written while the mutex is held", "the nonce handed to Seal is written outside the critical section that owns the counter")
@@ -204,7 +335,7 @@ func runC02(p *kit.Program, r *kit.Report) {
 				}
 			case ssa.CallInstruction:
 				cal := kit.CalleeOf(x)
-				if cal.Name == "PutUint64" && m == calleeOfWriter(cx, writers) {
+				if cal.Name == "PutUint64" && m == builder {
 					if ar, ok := kit.AddrRange(kit.Arg(x, 0)); ok {
 						counterLo = ar.Lo
 					}
@@ -274,6 +405,8 @@ func runC02(p *kit.Program, r *kit.Report) {
 		"the receive builder expects the role byte the opposite role sends",
 		"the receive-side expected nonce does not mirror the send-side role byte")
 
+	c02R6(p, r)
+
 	// R5: key confinement
 	var keyFld *types.Var
 	for f := range cx.fields {
@@ -329,23 +462,138 @@ func runC02(p *kit.Program, r *kit.Report) {
 	}
 }
 
-// calleeOfWriter returns the SessionKey method whose result is stored into the nonce buffer.
-func calleeOfWriter(cx *cryptoCtx, ws interface{}) *ssa.Function {
-	type writer = struct {
-		in   ssa.Instruction
-		from ssa.Value
+// c02R6 decides the "stored private key is consumed" clause over every ComputeECDH call site.
+func c02R6(p *kit.Program, r *kit.Report) {
+	ecdh := p.Func("internal/crypto", "", "ComputeECDH")
+	if !r.Require(ecdh != nil, "anchor-unresolved: crypto.ComputeECDH") {
+		return
 	}
-	if l, ok := ws.([]writer); ok {
-		for _, w := range l {
-			if w.from == nil {
-				continue
+	isZeroCall := func(c ssa.CallInstruction) bool {
+		cal := kit.CalleeOf(c)
+		return cal.Pkg == kit.PkgPath("internal/crypto") && (cal.Name == "ZeroKey" || cal.Name == "ZeroBytes")
+	}
+	sites := p.StaticCallers(ecdh)
+	r.Count("ecdh_call_sites", len(sites))
+	r.Require(len(sites) >= 2, "floor: fewer than 2 ComputeECDH call sites found (%d)", len(sites))
+	ord := map[string]int{}
+	for _, site := range sites {
+		fn := site.Parent()
+		if kit.FuncPkgPath(fn) == kit.PkgPath("internal/crypto") {
+			continue
+		}
+		ord[kit.FuncName(fn)]++
+		key := fmt.Sprintf("%s ECDH #%d", kit.FuncName(fn), ord[kit.FuncName(fn)])
+		pos := p.Pos(site.Pos())
+		// where does the private key operand live?
+		type loc struct {
+			field *types.Var // stored struct field
+			ptr   ssa.Value  // pointer parameter
+		}
+		var stored []loc
+		fresh := false
+		seen := map[ssa.Value]bool{}
+		var origin func(v ssa.Value)
+		origin = func(v ssa.Value) {
+			if v == nil || seen[v] {
+				return
 			}
-			if c, _, ok := kit.ResultOf(w.from); ok {
-				if cal := kit.CalleeOf(c); cal.Static != nil && cx.isSKMethod(cal.Static) {
-					return cal.Static
+			seen[v] = true
+			switch x := v.(type) {
+			case *ssa.Extract:
+				if c, ok := x.Tuple.(*ssa.Call); ok && kit.CalleeOf(c).Name == "GenerateEphemeralKeypair" {
+					fresh = true
+				}
+			case *ssa.Phi:
+				for _, e := range x.Edges {
+					origin(e)
+				}
+			case *ssa.UnOp:
+				if x.Op != token.MUL {
+					return
+				}
+				switch a := x.X.(type) {
+				case *ssa.FieldAddr:
+					if _, isLocal := a.X.(*ssa.Alloc); isLocal {
+						// field of a local struct: follow its stores
+						kit.Instrs(fn, func(in ssa.Instruction) {
+							if st, ok := in.(*ssa.Store); ok {
+								if fa, ok := st.Addr.(*ssa.FieldAddr); ok && fa.X == a.X && fa.Field == a.Field {
+									origin(st.Val)
+								}
+							}
+						})
+						return
+					}
+					stored = append(stored, loc{field: kit.FieldOfAddr(a)})
+				case *ssa.Alloc:
+					kit.Instrs(fn, func(in ssa.Instruction) {
+						if st, ok := in.(*ssa.Store); ok && st.Addr == a {
+							origin(st.Val)
+						}
+					})
+				case *ssa.Parameter:
+					stored = append(stored, loc{ptr: a})
 				}
 			}
 		}
+		origin(kit.Arg(site, 0))
+		if len(stored) == 0 {
+			r.OK("C02.R6", key, pos, "private key operand is local to the invocation (fresh keypair=%v)", fresh)
+			continue
+		}
+		// the consuming derivation(s) in the same function
+		var derives []ssa.CallInstruction
+		for _, c := range kit.Calls(fn) {
+			if kit.CalleeOf(c).Is("internal/crypto", "", "DeriveSessionKey") {
+				derives = append(derives, c)
+			}
+		}
+		for _, l := range stored {
+			zeroed := false
+			for _, c := range kit.Calls(fn) {
+				if !isZeroCall(c) || len(c.Common().Args) == 0 {
+					continue
+				}
+				a0 := c.Common().Args[0]
+				match := false
+				if l.field != nil {
+					if ar, ok := kit.AddrRange(a0); ok {
+						if fa, ok := ar.Root.(*ssa.FieldAddr); ok && kit.FieldOfAddr(fa) == l.field {
+							match = true
+						}
+					}
+					if fa, ok := a0.(*ssa.FieldAddr); ok && kit.FieldOfAddr(fa) == l.field {
+						match = true
+					}
+				} else if a0 == l.ptr {
+					match = true
+				} else if ar, ok := kit.AddrRange(a0); ok && ar.Root == l.ptr {
+					match = true
+				}
+				if !match {
+					continue
+				}
+				okAll := len(derives) > 0
+				for _, d := range derives {
+					if !kit.Precedes(c, d) {
+						okAll = false
+					}
+				}
+				if len(derives) == 0 {
+					// no derivation here: the zeroing must at least follow the key agreement
+					okAll = kit.CanReach(site, c)
+				}
+				if okAll {
+					zeroed = true
+				}
+			}
+			what := "pointer parameter"
+			if l.field != nil {
+				what = "field " + l.field.Name()
+			}
+			r.Decide(zeroed, "C02.R6", key+" consumes "+what, pos,
+				"the stored private key is zeroed in place before the session key is derived",
+				"the stored ephemeral private key ("+what+") is not zeroed in place before the session key is derived: a duplicated handshake reply re-derives the same key with send/receive counters reset to zero, so nonces are reused under one key")
+		}
 	}
-	return nil
 }
